@@ -96,7 +96,7 @@ def run(ctx):
         events.append({"kind": "bound", "name": name, "ppb": int(min(10 ** 9, max(0.0, excess) * 1e9))})
         meta.append(("bound", name))
 
-    for it in range(150 if T else 50):
+    for it in range(800 if T else 50):
         n = rnd.choice([1, 2, 7, 64, 257])
         npol = rnd.choice([1, 2])
         noisy = rnd.random() < 0.5
@@ -163,7 +163,7 @@ def run(ctx):
                 meta.append(("verdict", dev + kind))
         ctx.case(("laws", n > 2, npol, noisy, pol, loss > 0, ER))
     # LASER
-    for it in range(40 if T else 16):
+    for it in range(200 if T else 16):
         with warnings.catch_warnings():
             warnings.simplefilter("ignore")
             gv(sps=rnd.choice([8, 16]), R=rnd.choice([1e9, 10e9]))
